@@ -7,6 +7,8 @@ import numpy as np
 from . import engine
 
 EPS = np.finfo(float).eps
+import os
+GROW_WIDE = os.environ.get("VERIF_GROW_WIDE", "1") == "1"
 
 
 # ---------------------------------------------------------------------------
@@ -354,7 +356,7 @@ def gen_box(rng, n, one_sided_p=0.3, offset_p=0.3, scale_p=0.5, place_p=0.6, tig
 def gen_options(rng, n, npt=None, allow=("restarts", "regression", "growing", "random_init", "noise_exit", "tols", "diag", "rare"),
                 restarts_p=0.3):
     """user_params sampled strictly inside the documented ranges, avoiding combinations owned by findings
-    (growing with more than n directions, boundary values of the parameter table)."""
+    (boundary values of the parameter table). Growing with more than n directions was excluded too until fix 90bcc32."""
     up = {}
     out = dict(npt=npt)
     r = rng.random
@@ -388,7 +390,10 @@ def gen_options(rng, n, npt=None, allow=("restarts", "regression", "growing", "r
                     up["restarts.hard.increase_ndirs_initial_amt"] = 2
         if r() < 0.2:
             up["restarts.auto_detect"] = False
-    if "growing" in allow and n > 1 and "restarts.increase_npt" not in up and (npt is None or npt == n + 1) and r() < 0.2:
+    narrow = "growing" in allow and n > 1 and "restarts.increase_npt" not in up and (npt is None or npt == n + 1)
+    if GROW_WIDE and "growing" in allow and n > 1 and not narrow:
+        wide_growing_options(up, n, npt)
+    if narrow and r() < 0.2:
         up["growing.ndirs_initial"] = int(rng.integers(1, n + 1))
         if r() < 0.3:
             up["growing.num_new_dirns_each_iter"] = 1
@@ -433,6 +438,31 @@ def gen_options(rng, n, npt=None, allow=("restarts", "regression", "growing", "r
         rare_options(up, n)
     out["user_params"] = up
     return out
+
+
+def wide_growing_options(up, n, npt, p=0.3):
+    """Growing initial sets that end up with MORE than n directions (npt > n+1 with a reduced initial set, or restarts that add
+    points with unequal amounts): the new direction cannot be orthogonal to the existing ones. Raised ZeroDivisionError until the
+    repair recorded in KNOWN_FINDINGS.txt; excluded from every generator until then. Child generator: no other draw moves."""
+    import hashlib, json
+    seed = int(hashlib.sha1(json.dumps([sorted((k, repr(v)) for k, v in up.items()), n, npt, "grow"]).encode()).hexdigest()[:8], 16)
+    g = np.random.default_rng([seed, 29])
+    if g.random() >= p:
+        return up
+    base = npt if npt is not None else n + 1
+    up["growing.ndirs_initial"] = int(g.integers(1, base))            # 1 .. npt-1
+    if g.random() < 0.5:
+        up["growing.num_new_dirns_each_iter"] = int(g.integers(1, 4))
+    if g.random() < 0.3:
+        up["growing.do_geom_steps"] = True
+    if g.random() < 0.2:
+        up["growing.safety.reduce_delta"] = True
+    elif g.random() < 0.2:
+        up["growing.safety.full_geom_step"] = True
+    if up.get("restarts.increase_npt") and g.random() < 0.4:
+        up["restarts.increase_npt_amt"] = int(g.integers(1, 4))
+        up["restarts.hard.increase_ndirs_initial_amt"] = int(g.integers(1, 4))
+    return up
 
 
 def rare_options(up, n, p_block=0.3, reg=False, proj=False):
